@@ -11,9 +11,14 @@ open M
 theorem dcf1d_perm_equivariant (xs ys : List Rat) (h : xs.Perm ys) :
     ∃ w : Rat → Rat, dcf1d xs = xs.map w ∧ dcf1d ys = ys.map w := M.dcf1d_perm_equivariant xs ys h
 
-/-- scaling k-space by `a ≠ 0` scales every weight by `|a|` -/
-theorem dcf1d_scale (xs : List Rat) (a : Rat) (ha : a ≠ 0) :
-    dcf1d (xs.map (a * ·)) = (dcf1d xs).map (|a| * ·) := M.dcf1d_scale xs a ha
+/-- scaling k-space by `a ≠ 0` scales every weight by `|a|` — as soon as there are two distinct
+positions (with a single position there is no cell: the code returns weight 1, which cannot scale) -/
+theorem dcf1d_scale (xs : List Rat) (a : Rat) (ha : a ≠ 0) (h2 : 2 ≤ (sortedUnique xs).length) :
+    dcf1d (xs.map (a * ·)) = (dcf1d xs).map (|a| * ·) := M.dcf1d_scale_of_two_le xs a ha h2
+/-- the hypothesis is needed: a single sample keeps weight 1 under scaling (domain limit of the property:
+the cell of a lone sample is unbounded) -/
+theorem dcf1d_scale_single_point_fails :
+    dcf1d (([0] : List Rat).map ((2 : Rat) * ·)) ≠ (dcf1d [0]).map (|(2 : Rat)| * ·) := M.dcf1d_scale_counterexample
 
 /-- translation invariance -/
 theorem dcf1d_translate (xs : List Rat) (t : Rat) : dcf1d (xs.map (· + t)) = dcf1d xs := M.dcf1d_translate xs t
